@@ -266,6 +266,7 @@ pub fn engine_of(prop: &str) -> Option<Box<dyn Engine>> {
         "C12" => Box::new(hist("C12", None, 300_000, 4_000_000)),
         "C13" => Box::new(hist("C13", None, 300_000, 4_000_000)),
         "C16" => Box::new(hist("C16", None, 300_000, 4_000_000)),
+        "C10" => Box::new(crate::crash::CrashEngine { quick_runs: 150_000, thorough_runs: 3_000_000 }),
         _ => return None,
     })
 }
